@@ -160,3 +160,19 @@ Qed.
 (* the source still runs the build tail in the order ResMapModel.finalize models *)
 Lemma gen_tail_order : tail_order_b = true.
 Proof. vm_compute. reflexivity. Qed.
+
+(* every qualified string of the source is classified; every annotation write site is covered *)
+Lemma gen_qualified_classified : qualified_classified_b = true.
+Proof. vm_compute. reflexivity. Qed.
+
+Lemma gen_write_sites_covered : write_sites_covered_b = true.
+Proof. vm_compute. reflexivity. Qed.
+
+Example api_version_examples :
+  is_api_version "rbac.authorization.k8s.io/v1beta1" = true /\ is_api_version "config.kubernetes.io/v1" = true /\
+  is_api_version "config.kubernetes.io/index" = false /\ is_api_version "x.io/v1thing" = false /\
+  is_api_version "x.io/v" = false /\ is_api_version "x.io/v2alpha" = false.
+Proof. vm_compute. repeat split. Qed.
+
+Lemma gen_plugin_protocol_removed : plugin_protocol_removed_b = true.
+Proof. vm_compute. reflexivity. Qed.
